@@ -195,6 +195,35 @@ CLAIMED = {
                      "exported cases replayed into four implementations",
         "design_ref": "DESIGN.md section 4 (C18)",
     },
+    "C12": {
+        "text": "PARTIAL, by design. AberrationForms.tla carries a coefficient set through the representations the "
+                "library uses, one action per library function (user dictionary in canonical or alias spelling with "
+                "'defocus' = -C10 -> Standardize -> polar -> ToCart -> Cartesian -> AddDelta -> ToPolar; Merge = the three "
+                "in one call), and defines the MEANING of every state as the aberration function evaluated exactly on the "
+                "integer lattice (-2..2)^2 of scattering-angle vectors, where every term of orders 1..5 (all 14 (n,m) "
+                "terms, 25 polar symbols / 25 Cartesian labels) is a polynomial over the Gaussian integers. TLC checks "
+                "MeaningLaw (representation changes keep the meaning, a delta adds its meaning), SurfaceAgree and GradAgree "
+                "(the polar series and the polar gradient recombined into x/y as the library writes them equal the "
+                "polynomial and its exact derivative), Euler (homogeneity of the exact derivative) and Order1Linear (the "
+                "first-order gradient is the symmetric matrix the shift fit recovers), and rejects three wrong variants "
+                "(phi + phi_nm, 'defocus' = +C10, azimuthal derivative with the wrong sign). Every behaviour is exported "
+                "with the exact lattice values and replayed through standardize_aberration_coefs, "
+                "validate_aberration_coefficients, the probe_params setter (ProbePixelated, ProbeParametric), "
+                "polar_to_cartesian_aberrations, cartesian_to_polar_aberrations, merge_aberration_coefficients; after every "
+                "step aberration_surface, aberration_surface_cartesian_gradients, aberration_surface_cartesian_basis, "
+                "parse_cartesian_aberration_label, aberration_surface_grad and DirectPtychography._return_lateral_shifts are "
+                "evaluated on the lattice and compared with TLC's integers; first-order states inside the identifiable "
+                "domain go through predicted shifts -> fit_aberrations_from_shifts for seven rotation angles. NOT decided: "
+                "the identity at arbitrary real angles / azimuths (only lattice points and coefficient directions with "
+                "rational cosine and sine), the symbolic form, fits from noisy or cross-correlation-measured shifts.",
+        "note": "Trusted: TLC integer arithmetic; float64 library results compared with exact integers to 1e-9 relative, "
+                "float32 paths (standardize_aberration_coefs, fftfreq grids) to 1e-4; the harness's translation of a model "
+                "direction <<d1, d2>> into an angle atan2(d2, d1)/m (every branch 2 pi j/m is used). Polynomial identities "
+                "of degree <= 6 that hold on the 25 lattice points for every single term and every pair of terms.",
+        "technique": "TLA+ representation state machine with exact Gaussian-integer meaning checked by TLC; behaviours "
+                     "replayed into the library's conversion, evaluation and fit functions",
+        "design_ref": "DESIGN.md section 5 (C12)",
+    },
     "C13": {
         "text": "Registration.tla computes exact integer circular cross-correlations on a family of small "
                 "images and checks Recovers (estimate = applied shift for EVERY shift of the periodic "
